@@ -241,7 +241,7 @@ class FileLintContext(BaseLintContext):
         if not self._path or not self._path.exists():
             return None
         try:
-            self._content = self._path.read_text(encoding="utf-8")
+            self._content = self._path.read_text(encoding="utf-8-sig")
         except (UnicodeDecodeError, OSError):
             self._content = None
         return self._content
